@@ -2,6 +2,7 @@ use std::{any::type_name, rc::Rc};
 
 use children::{children_between, trivia_before};
 use dprint_core::formatting::{
+	ir_helpers,
 	condition_helpers::is_multiple_lines,
 	condition_resolvers::true_resolver,
 	ir_helpers::{new_line_group, with_indent},
@@ -226,14 +227,17 @@ impl Printable for Text {
 				if ele.is_empty() {
 					p!(out, >ii nl <ii);
 				} else {
-					p!(out, string(ele.to_string()) nl);
+					// Line may contain tabs, which dprint wants to be signalled separately
+					out.extend(ir_helpers::gen_from_string(ele));
+					p!(out, nl);
 				}
 			}
 			p!(out, <i str("|||"));
 
 			return;
 		}
-		p!(out, string(format!("{}", self)));
+		// Verbatim and quoted strings may span lines and contain tabs, keep them as is
+		out.extend(ir_helpers::gen_from_raw_string(&format!("{}", self)));
 	}
 }
 impl Printable for Number {
